@@ -50,12 +50,17 @@ VTT_LINES = [
     ("123", "123"),
     ("x&nbsp;y", "x" + NBSP + "y"),
     ("  padded  ", "padded"),
+    ("<v Fred>Hi there! <v Bob>Hey you", "Fred: Hi there! Bob: Hey you"),
+    ("<i><v Ann Lee>Whispering</v></i>", "Ann Lee: Whispering"),
+    ("...", "..."),
+    ("? !", "? !"),
 ]
 VTT_TIMES = [("00:01.000", "00:02.500", S, 2500000), ("00:00:03.000", "00:00:04.000", 3 * S, 4 * S),
              ("01:00:05.250", "01:00:06.000", 3605250000, 3606 * S), ("100:00:07.000", "100:00:08.000", 360007 * S, 360008 * S)]
 
 
 def norm(line):
+    line = re.sub(r"\{[a-zA-Z]:[^{}]*\}", "", line)          # MicroDVD control codes carry no characters
     return re.sub(r"[ \t]+", " ", line.replace(NBSP, " ")).strip()
 
 
@@ -85,11 +90,18 @@ def vtt_documents(thorough):
                 want.append((s, e, [norm(VTT_LINES[x][1]) for x in cue]))
             doc = out[0] + "\n\n" + sep.join(out[1:]) + tail
             yield doc, want
+            if not light:
+                # the same document with the other two line terminators the WebVTT grammar allows
+                yield doc.replace("\n", "\r\n"), want
+                yield doc.replace("\n", "\r"), want
 
 
 def microdvd_documents():
     lines_pool = [("hello", ["hello"]), ("a|b", ["a", "b"]), ("a||b", ["a", "b"]), ("one|two|three", ["one", "two", "three"]),
-                  ("x & <y>", ["x & <y>"]), ("12", ["12"])]
+                  ("x & <y>", ["x & <y>"]), ("12", ["12"]),
+                  # control codes: whatever the reader does with the codes themselves, the WORDS survive
+                  ("{y:i}Hello {c:$0000ff}blue{c:$ffffff} world|plain line", ["Hello blue world", "plain line"]),
+                  ("so-called {experts} agree", ["so-called {experts} agree"])]
     for fps_line, fps in ((None, 25), ("{0}{0}25", 25), ("{0}{0}30", 30), ("{0}{0}23.976", Fraction("23.976"))):
         for k in range(len(lines_pool)):
             for tail in ("\n", ""):
